@@ -31,6 +31,14 @@ pub struct Aux {
     /// C10 systematic layer: truncate the valid stream at this byte
     #[serde(default, skip_serializing_if = "Option::is_none")]
     pub truncate: Option<usize>,
+    /// C07/C08 systematic layer: the write stream / read stream is split at this absolute offset
+    #[serde(default, skip_serializing_if = "Option::is_none")]
+    pub wsplit: Option<usize>,
+    #[serde(default, skip_serializing_if = "Option::is_none")]
+    pub rsplit: Option<usize>,
+    /// systematic layers use a fixed small stream and benign knobs
+    #[serde(default, skip_serializing_if = "std::ops::Not::not")]
+    pub systematic: bool,
 }
 
 #[derive(Clone, Debug, Serialize, Deserialize)]
@@ -86,6 +94,9 @@ pub struct RunOutput {
     pub state_hashes: Vec<u64>,
     pub nontrivial: bool,
     pub summary: Option<serde_json::Value>,
+    /// (write, read, flush) pipe calls made – used to size the systematic layers
+    pub calls: (u32, u32, u32),
+    pub stream_len: usize,
 }
 
 // ---------------------------------------------------------------------------------------------
@@ -135,10 +146,30 @@ pub fn run_delivery<M: ZooMsg + ?Sized>(sc: &Scenario, keep_log: bool) -> RunOut
     };
     let mut dec = sc.decider();
     let mut stats: Stats = [0; P::_COUNT as usize];
-    let (nmax, tweak_p) = if prop == "C09" { (5, 1) } else { (8, 2) };
-    let plan = Arc::new(make_plan::<M>(&mut dec, &mut stats, nmax, tweak_p));
-    let knobs = draw_knobs(prop, sc.world, &mut dec, &plan);
+    let (nspec, tweak_p) = if sc.aux.systematic {
+        (NSpec::Exactly(3), 0)
+    } else if prop == "C09" {
+        (NSpec::UpTo(5), 1)
+    } else {
+        (NSpec::UpTo(8), 2)
+    };
+    let plan = Arc::new(make_plan::<M>(&mut dec, &mut stats, nspec, tweak_p));
+    let mut knobs = draw_knobs(if sc.aux.systematic && prop == "C09" { "C07" } else { prop }, sc.world, &mut dec, &plan);
+    if sc.aux.systematic {
+        // the single forced fault / split is the only disturbance
+        knobs.p_pend = 0;
+        knobs.p_f_pend = 0;
+        knobs.max_faults = 1;
+        if sc.aux.wsplit.is_some() || sc.aux.rsplit.is_some() {
+            knobs.pipe_cap = 4096;
+            knobs.wchunk_mode = 0;
+            knobs.rchunk_mode = 0;
+            knobs.sched_mode = 1;
+        }
+    }
     let mut world = World::new(dec, knobs, keep_log);
+    world.split_w = sc.aux.wsplit;
+    world.split_r = sc.aux.rsplit;
     world.stats = stats;
     world.prop = prop;
     world.align = M::ALIGN;
@@ -210,7 +241,7 @@ pub fn fold_async_panics(sh: &Shared, caught: Vec<Option<Caught>>) {
     }
 }
 
-fn finish(mut w: World, plan: &Plan, prop: &'static str, is_async: bool, keep_log: bool) -> RunOutput {
+pub fn finish(mut w: World, plan: &Plan, prop: &'static str, is_async: bool, keep_log: bool) -> RunOutput {
     if w.violation.is_none() && w.harness_error.is_none() {
         let v = match prop {
             "C07" | "C08" => crate::oracle::check_delivery(&w, plan, prop, is_async),
@@ -225,8 +256,14 @@ fn finish(mut w: World, plan: &Plan, prop: &'static str, is_async: bool, keep_lo
     }
     let delivered = w.stats[P::msgs_delivered as usize];
     let nontrivial = delivered > 0 || w.faults_fired > 0;
+    output_of(w, plan, nontrivial, keep_log)
+}
+
+pub fn output_of(mut w: World, plan: &Plan, nontrivial: bool, keep_log: bool) -> RunOutput {
     let summary = if keep_log { Some(summarize(&w, plan)) } else { None };
     RunOutput {
+        calls: (w.w_calls, w.r_calls, w.f_calls),
+        stream_len: w.pipe.sink.len(),
         violation: w.violation.clone(),
         harness_error: w.harness_error.clone(),
         tape: w.dec.rec.clone(),
